@@ -9,6 +9,7 @@ import os
 
 import numpy as np
 
+import c02
 import common
 import meshgen
 from common import FILL, sx
@@ -88,12 +89,24 @@ def spec_check(table, n_node, out):
 
 def impl(table, lon, lat, order, supplied_edges=None):
     import uxarray as ux
-    t = np.array(table, dtype=np.intp)
+    # memory layout of the face table as a source may hold it: C order, Fortran order (transposed storage), strided view
+    t = c02.layout(np.array(table, dtype=np.intp), (order // 4) % 3)
     kw = {}
     if supplied_edges is not None:
         # a source that ships its own edge table (MPAS/ICON style): arbitrary edge order and pair orientation
         kw["edge_node_connectivity"] = np.array(supplied_edges, dtype=np.intp)
-    g = ux.Grid.from_topology(np.array(lon, float), np.array(lat, float), t.copy(), fill_value=FILL, **kw)
+        if order % 2:
+            # ... and its own edge_face table (MPAS cellsOnEdge): the two faces of an edge in either order
+            _, efm = mesh_facts(table)
+            rows_ef = []
+            for k_, (a_, b_) in enumerate(supplied_edges):
+                fs = list(efm[(min(a_, b_), max(a_, b_))])
+                if len(fs) == 2 and (k_ + order) % 3 == 0:
+                    fs.reverse()
+                rows_ef.append(fs + [FILL] * (2 - len(fs)))
+            if all(len(r_) == 2 for r_ in rows_ef):
+                kw["edge_face_connectivity"] = np.array(rows_ef, dtype=np.intp)
+    g = ux.Grid.from_topology(np.array(lon, float), np.array(lat, float), t if (order // 4) % 3 else t.copy(), fill_value=FILL, **kw)
     if order % 5 == 3:
         # unrelated reads first (geometry helpers work on padded copies of the face table): the incidence tables derived
         # afterwards must still describe the grid's faces
@@ -106,6 +119,9 @@ def impl(table, lon, lat, order, supplied_edges=None):
     vals = {}
     for nm in names:
         vals[nm] = np.asarray(getattr(g, nm).values)
+    # face_edge is derived FIRST here: whatever that derivation does to a supplied edge table must show in the edge table
+    # read afterwards
+    fe_first = g.face_edge_connectivity.values.tolist()
     out = {
         "edge_node": g.edge_node_connectivity.values.tolist(),
         "node_face": vals["node_face_connectivity"].tolist(),
@@ -115,7 +131,7 @@ def impl(table, lon, lat, order, supplied_edges=None):
         "dtype": {"node_face": str(np.dtype(vals["node_face_connectivity"].dtype).name).replace("int64", "intp"),
                   "edge_face": str(np.dtype(vals["edge_face_connectivity"].dtype).name).replace("int64", "intp"),
                   "face_face": str(np.dtype(vals["face_face_connectivity"].dtype).name).replace("int64", "intp")},
-        "face_edge": g.face_edge_connectivity.values.tolist(),
+        "face_edge": fe_first,
         "npf": g.n_nodes_per_face.values.tolist(),
         "n_edge": int(g.n_edge),
         "width_ff": int(vals["face_face_connectivity"].shape[1]) if vals["face_face_connectivity"].ndim == 2 else -1,
